@@ -20,6 +20,8 @@ macro_rules! dispatch {
     ($prop:expr, $f:ident, $($arg:expr),*) => {
         match $prop {
             "C14" => $f(worlds::join::JoinWorld, $($arg),*),
+            "C13" => $f(worlds::watermark::WatermarkWorld, $($arg),*),
+            "C12" => $f(worlds::window::WindowWorld, $($arg),*),
             other => {
                 eprintln!("no simulation world serves property {other}");
                 2
@@ -32,7 +34,9 @@ fn main() {
     let args: Vec<String> = std::env::args().skip(1).collect();
     let report = Report::take_over_stdio();
     // library panics are caught and judged; keep them off the (already silenced) stderr
-    std::panic::set_hook(Box::new(|_| {}));
+    if std::env::var("VERIF_KEEP_STDIO").is_err() {
+        std::panic::set_hook(Box::new(|_| {}));
+    }
     let code = real_main(&args, &report);
     std::process::exit(code);
 }
